@@ -2,7 +2,7 @@
    one constructor per real Go function driven by the harness.
    Executable definitions only. *)
 From Verif Require Import Lib.Base Decode.GoSlice Decode.Node Decode.ProofEntries Decode.Quote Decode.KeyFormat Decode.Misc Decode.Cbor Decode.More Decode.StreamDepth Decode.CborValue Gen.DecodeConsts.
-From Verif Require Decode.Conn.
+From Verif Require Decode.Conn Decode.Evidence.
 
 Inductive cin : Type :=
 | CDepth (b : bytes)                      (* Depth.UnmarshalBinary *)
@@ -33,7 +33,8 @@ Inductive cin : Type :=
 | CEnum (table : list (bytes * N)) (text : bytes)   (* an enum UnmarshalText *)
 | CSigstruct (b : bytes)                  (* sigstruct.Verify: only "length accepted" vs "length rejected" *)
 | CStreamDepth (maxstack frame base reads : N)   (* cbor.MessageCodec.Read fed one byte per read, [reads] reads, in a child process with stack limit maxstack: does it die? *)
-| CConn (evs : list Conn.ev).                  (* a scripted session with the real protocol.Connection over net.Pipe *)
+| CConn (evs : list Conn.ev)                  (* a scripted session with the real protocol.Connection over net.Pipe *)
+| CEvidence (sigs_ok : bool) (a b : Evidence.ecommit).   (* roothash EquivocationExecutorEvidence.ValidateBasic after a CBOR round trip *)
 
 Inductive cout : Type :=
 | ODepth (r : res (N * N))
@@ -105,6 +106,7 @@ Definition run_case (c : cin) : cout :=
   | CStreamDepth maxstack frame base reads =>
       ODies (overflows maxstack frame base (trickle_frames (reads - 4)))
   | CConn evs => let s := Conn.run true evs in OConn (Conn.outcomes s) (Conn.close_returns s)
+  | CEvidence sigs_ok a b => OClass (Evidence.evidence_validate_basic sigs_ok a b)
   end.
 
 Definition pair_eqb {A B} (ea : A -> A -> bool) (eb : B -> B -> bool) (x y : A * B) : bool :=
